@@ -7,7 +7,7 @@ HERE = os.path.dirname(os.path.dirname(os.path.abspath(__file__)))
 
 # id -> (technique, level text, level note, DESIGN section)
 CLAIMED = {
-    "C10": ("model-based generation of list-operation histories (Hypothesis) + exhaustive enumeration of slices, indices and short sequences against a Python-list reference model",
+    "C10": ("model-based stateful testing: Hypothesis RuleBasedStateMachine (one rule per list operation) and op-list histories + exhaustive enumeration of slices, indices and short sequences against a Python-list reference model",
             "Exploration: every slice (start, stop in None,-7..7; step in None,+-1,+-2,+-3), every index -7..7 and every operation sequence up to length 3 (quick) / 4 (thorough) from start lengths 0..4 is enumerated for every list-capable class, plus random histories up to 30/60 steps; after each step length, element values and classes are compared with a Python list. Complete for the enumerated sub-domains, sampled beyond them.",
             "trusts Python list semantics as the model and NumPy array_equal; element values are distinct tagged arrays built without library constructors",
             "4/C10"),
@@ -69,7 +69,7 @@ CLAIMED.update({
     "C16": ("enumeration of every API entry marked 'SymPy: supported' (by reflection) x symbolic/numeric argument masks x substitution points + Hypothesis-drawn points; differential oracle: symbolic output evaluated at the point vs the numeric call",
             EXPL + "the entry table is checked at start-up against the docstring markers; each entry is called with all-symbolic and mixed arguments and every output entry is evaluated with SymPy at random and special points and compared with the numeric call to 1e-12; structural 0/1 entries must stay exact; pose operators on symbolic values are included.",
             "SymPy evalf; one recorded finding (F-C16-1, SE3.Delta symbolic vs normalised numeric) is excluded by site", "4/C16"),
-    "C17": ("model-free stateful generation: operation histories over a pool of values into which every result is fed back, with byte-level snapshots of every pool member before/after each call; exhaustive single operations and ordered pairs; C15 table and reflected zero-argument members",
+    "C17": ("model-free stateful generation (Hypothesis RuleBasedStateMachine with one rule per library callable, and op-list histories): operation histories over a pool of values into which every result is fed back, with byte-level snapshots of every pool member before/after each call; exhaustive single operations and ordered pairs; C15 table and reflected zero-argument members",
             EXPL + "about 400 operations (base functions, constructors, operators incl. augmented ones, accessors, conversions, string conversion / printing, documented list mutators) are run singly, in every ordered pair and in random histories with results flowing into later calls; any change of an argument, operand or bystander other than the receiver of a list mutator, and any difference between two calls on equal inputs, is a violation.",
             "byte-level snapshot (tobytes/shape/dtype) of arrays, containers and object data; views are allowed; plot/animate/printline excluded", "4/C17"),
 })
